@@ -135,6 +135,9 @@ func run(sc scenario, choose vs.Chooser, traceOn bool) (*observation, *vs.Sched,
 			vs.GoNamed("client", func() { vs.Sleep(2 * unit); t.Feed(fragRec[firstRecLen:]) })
 		case "first-record-only":
 			t.Feed(fragRec[:firstRecLen])
+		case "bad-record":
+			// a complete first record that is not a handshake record: NewConn refuses it at once and then WRITES an alert
+			t.Feed(tlsref.Record(23, 0x0303, []byte("not a hello")))
 		case "never":
 		}
 		// canceller
@@ -230,6 +233,19 @@ func monitor(sc scenario, ob *observation, s *vs.Sched, t *vnet.Conn) (key, what
 	case "deadline5-cancelled-at-1":
 		ctxEnds, ctxEndAt = true, 1*unit
 	}
+	if sc.Hello == "bad-record" {
+		// the refusal itself does not depend on the context; but the alert write may block (client not reading), and then the
+		// context is what bounds NewConn
+		switch {
+		case ob.newConnErr == nil:
+			return "newconn-accepts-bad-record", "NewConn succeeded on a first record of type 23"
+		case ctxEnds && ob.returnedAt > ctxEndAt:
+			return "newconn-late", fmt.Sprintf("the context ended at %v but NewConn (blocked writing its alert to a client that does not read) returned at %v", ctxEndAt, ob.returnedAt)
+		case !sc.BlockedWrites && ob.returnedAt > 0:
+			return "newconn-late", fmt.Sprintf("NewConn took until %v to refuse a record that was available at 0", ob.returnedAt)
+		}
+		return "", ""
+	}
 	if ob.newConnErr != nil {
 		// (a) failing is only legitimate if the context ended while NewConn was still reading (or at the same instant)
 		if helloComplete && (!ctxEnds || ctxEndAt > completeAt) {
@@ -305,6 +321,15 @@ func scenarios() []scenario {
 			if (never || h == "two-fragments") && (c == "t1" || c == "deadline2" || c == "t0") {
 				out = append(out, scenario{Hello: h, Cancel: c, Keys: true, BlockedWrites: true})
 			}
+		}
+	}
+	// a first record that is refused outright, with a client that reads the alert or never does
+	for _, c := range []string{"never", "t0", "t1", "t3", "deadline2", "deadline5-cancelled-at-1"} {
+		for _, blocked := range []bool{false, true} {
+			if blocked && c == "never" {
+				continue // nothing can ever end the alert write: NewConn legitimately blocks
+			}
+			out = append(out, scenario{Hello: "bad-record", Cancel: c, Keys: true, BlockedWrites: blocked})
 		}
 	}
 	return out
@@ -449,7 +474,7 @@ func Run(r *ev.Run, replay string) {
 		return
 	}
 	b := bound(r.Tier)
-	r.Rule(fmt.Sprintf("E3 stateless exploration of the real NewConn (sources rewritten into scheduler shims at check time) in virtual time: scenarios = hello {already buffered, arriving at t=1, in two fragments at t=0 and t=2, in two TLS records at t=0 and t=2, only the first of two records, never} x context {never ends, cancelled by another thread at t=0/1/3, cancelled by the caller right after NewConn returned, deadline at t=2, deadline at t=5 cancelled at t=1} x keys {yes,no} x {plain use, HelloRetryRequest + second hello after the return, caller's own transport deadline set before the call}; threads = caller (NewConn, then Read/Write on the result), canceller, client, and the watcher NewConn spawns; ALL schedules with at most %d deviations (preemption / non-canonical thread pick, non-first ready select case, timer order). Monitors: NewConn fails only if the context ended before the hello was complete and then no later than that instant; after a successful return no deadline call starts, no deadline is left set (a deadline the caller had set before is still exactly that), and the caller's I/O succeeds. distinct = distinct scenarios", b))
+	r.Rule(fmt.Sprintf("E3 stateless exploration of the real NewConn (sources rewritten into scheduler shims at check time) in virtual time: scenarios = hello {already buffered, arriving at t=1, in two fragments at t=0 and t=2, in two TLS records at t=0 and t=2, only the first of two records, never, a complete record that is not a handshake record (refused; the alert is written to a client that reads or never reads)} x context {never ends, cancelled by another thread at t=0/1/3, cancelled by the caller right after NewConn returned, deadline at t=2, deadline at t=5 cancelled at t=1} x keys {yes,no} x {plain use, HelloRetryRequest + second hello after the return, caller's own transport deadline set before the call}; threads = caller (NewConn, then Read/Write on the result), canceller, client, and the watcher NewConn spawns; ALL schedules with at most %d deviations (preemption / non-canonical thread pick, non-first ready select case, timer order). Monitors: NewConn fails only if the context ended before the hello was complete and then no later than that instant; after a successful return no deadline call starts, no deadline is left set (a deadline the caller had set before is still exactly that), and the caller's I/O succeeds. distinct = distinct scenarios", b))
 	r.Assume("computation takes zero virtual time; sequentially consistent memory at synchronisation granularity", "the transport is a scheduler-aware fake whose Read honours deadlines")
 	explore(r, scenarios(), b, "c10")
 }
